@@ -48,6 +48,12 @@ def compile(r: str):
         transitions[state_number].sort()
 
     accepts = [state.nullable() for state in states]
+    if expr.null not in state_numbers:
+        # No string is rejected half way (for example '.*'), add the
+        # error state anyway, since the scanner uses it when at end of input:
+        state_numbers[expr.null] = len(state_numbers)
+        transitions.append([])
+        accepts.append(False)
     error = state_numbers[expr.null]
 
     return transitions, accepts, error
